@@ -128,6 +128,7 @@ func buildFork(e *env) (post func() string) {
 	e.in = []chan int{make(chan int, sc.Caps[0])}
 	e.next, e.lastDone, e.accepted, e.closedIn, e.closedCh = make([]int, 1), make([]chan struct{}, 1), make([]int, 1), make([]bool, 1), make([]bool, 1)
 	var ro <-chan int = e.in[0]
+	e.prefill()
 	ctx := e.ctx
 	par := max(sc.Par, 1)
 	input := sc.In[0]
